@@ -270,3 +270,105 @@ Definition c16_attr_case (k nout m : nat) (ra0 ra1 dec0 dec1 : Q) (ras decs : li
          in_window ra0 ra1 ras && in_window dec0 dec1 decs;
          joint_ok_g (FFin 0) fval_eqb ws zs pairs;
          repro ].
+
+
+(* ---------- several generator objects alive at once ---------- *)
+(* A generator is a VALUE: what it was given at construction (does it draw weights, does it draw
+   redshifts) and its own PRNG state.  A world is the list of the objects constructed so far; a
+   schedule constructs further objects and applies operations to any of them, in any order. *)
+Definition cfg_width (hw hz : bool) : nat := if hw || hz then 3 else 2.
+
+Fixpoint set_nth {A} (i : nat) (x : A) (l : list A) : list A :=
+  match l, i with
+  | [], _ => []
+  | _ :: r, O => x :: r
+  | y :: r, S i' => y :: set_nth i' x r
+  end.
+
+Section World.
+  Context {seed sample : Type}.
+  Context (stream : seed -> nat -> sample).
+
+  Record gen := mkGen { g_hasw : bool; g_hasz : bool; g_state : @state seed }.
+  Definition g_width (g : gen) : nat := cfg_width (g_hasw g) (g_hasz g).
+
+  Inductive wop :=
+  | WNew (hw hz : bool) (s : seed)      (* BoxRandoms(..., weights = ?, redshifts = ?, seed = s) *)
+  | WOp (i : nat) (o : op seed).        (* operation o on object number i *)
+
+  Definition wstep (a : wop) (w : list gen) : list gen * option (nat * list (@chunk sample)) :=
+    match a with
+    | WNew hw hz s => (w ++ [mkGen hw hz (fresh s)], None)
+    | WOp i o =>
+        match nth_error w i with
+        | None => (w, None)
+        | Some g => let '(st1, out) := step stream (g_width g) o (g_state g) in
+                    (set_nth i (mkGen (g_hasw g) (g_hasz g) st1) w, Some (i, out))
+        end
+    end.
+
+  Fixpoint wrun (sched : list wop) (w : list gen) : list gen * list (nat * list (@chunk sample)) :=
+    match sched with
+    | [] => (w, [])
+    | a :: r => let '(w1, out) := wstep a w in
+                let '(w2, outs) := wrun r w1 in
+                (w2, match out with Some x => x :: outs | None => outs end)
+    end.
+
+  (* what object i sees of a schedule, and what it produced *)
+  Definition project (i : nat) (sched : list wop) : list (op seed) :=
+    flat_map (fun a => match a with WOp j o => if j =? i then [o] else [] | WNew _ _ _ => [] end) sched.
+  Definition outputs_of (i : nat) (outs : list (nat * list (@chunk sample))) : list (list chunk) :=
+    flat_map (fun x => if fst x =? i then [snd x] else []) outs.
+
+  (* the variant in which the attribute flags live in ONE place shared by all objects (set by every
+     constructor): each call has the width of the object constructed last *)
+  Definition wstep_shared (a : wop) (cur : bool * bool) (w : list gen)
+    : (bool * bool) * list gen * option (nat * list (@chunk sample)) :=
+    match a with
+    | WNew hw hz s => ((hw, hz), w ++ [mkGen hw hz (fresh s)], None)
+    | WOp i o =>
+        match nth_error w i with
+        | None => (cur, w, None)
+        | Some g => let '(st1, out) := step stream (cfg_width (fst cur) (snd cur)) o (g_state g) in
+                    (cur, set_nth i (mkGen (g_hasw g) (g_hasz g) st1) w, Some (i, out))
+        end
+    end.
+  Fixpoint wrun_shared (sched : list wop) (cur : bool * bool) (w : list gen)
+    : list gen * list (nat * list (@chunk sample)) :=
+    match sched with
+    | [] => (w, [])
+    | a :: r => let '(cur1, w1, out) := wstep_shared a cur w in
+                let '(w2, outs) := wrun_shared r cur1 w1 in
+                (w2, match out with Some x => x :: outs | None => outs end)
+    end.
+End World.
+Arguments gen : clear implicits.
+Arguments wop : clear implicits.
+
+(* ---------- correspondence checker for one object of a case with several objects ---------- *)
+(* one group of operations on the object together with what was observed of it: the number of
+   records, whether the records carry a weights / a redshifts field, and whether they equal, bit
+   for bit, what the same generator gives when it is the only object *)
+Record mobs := MO { mo_ops : list (op unit); mo_n : nat; mo_w : bool; mo_z : bool; mo_same : bool }.
+Definition op_total (ops : list (op unit)) : nat := nsum (calls (trace ops)).
+
+(* flags: 0 model agrees: the event log of THIS object, in the company of the others and alone,
+            is the trace of its own operations (up to repeated reseeds)
+          1 size: every group produced exactly the requested number of records
+          2 window
+          3 joint draw: every (w, z) is one row of the samples supplied to THIS object
+          4 independent / reproducible: every group equals that of the object used alone
+          5 attributes attached: the records carry weights / redshifts iff this object was given them *)
+Definition c16_multi_gen (hw hz : bool) (obs : list mobs) (evs evs_solo : list event)
+           (ra0 ra1 dec0 dec1 : Q) (ras decs : list Q)
+           (weights redshifts : list Q) (pairs : list (Q * Q)) : nat :=
+  let ops := concat (map mo_ops obs) in
+  let total := nsum (map mo_n obs) in
+  code [ history_agree ops evs && history_agree ops evs_solo;
+         forallb (fun o => mo_n o =? op_total (mo_ops o)) obs && (length ras =? total) && (length decs =? total);
+         in_window ra0 ra1 ras && in_window dec0 dec1 decs;
+         joint_ok weights redshifts pairs;
+         forallb mo_same obs;
+         forallb (fun o => (op_total (mo_ops o) =? 0) || (Bool.eqb (mo_w o) hw && Bool.eqb (mo_z o) hz)) obs
+           && (length pairs =? if hw || hz then total else 0) ].
